@@ -402,6 +402,24 @@ func (e *CEnv) call(n *CCall) Term {
 				return mkMath(strconv.FormatInt(v.T.Underlying().(*types.Array).Len(), 10))
 			}
 			cfail("len of %s", types.TypeString(v.T, nil))
+		case "visited", "visited1", "visited2", "visited3", "visited4": // visited(k): the enclosing map range has already iterated key k
+			name := "range_seen" + strings.TrimPrefix(n.Fun, "visited")
+			g, ok := e.lookup(name)
+			if !ok {
+				cfail("%s: no enclosing range over a map", n.Fun)
+			}
+			k := e.eval(n.Args[0])
+			return mkBool("(select " + g.S + " " + k.S + ")")
+		case "lookup": // lookup(m, k): the value Go's m[k] yields (zero value when the key is absent or the map nil)
+			m := e.autoDeref(e.eval(n.Args[0]))
+			k := e.eval(n.Args[1])
+			mt, ok := m.T.Underlying().(*types.Map)
+			if !ok {
+				cfail("lookup: not a map")
+			}
+			s := e.reg().SortOf(m.T)
+			present := "(and (not (isnil_" + s + " " + m.S + ")) (select (dom_" + s + " " + m.S + ") " + k.S + "))"
+			return Term{S: ite(present, "(select (val_"+s+" "+m.S+") "+k.S+")", e.reg().Zero(mt.Elem()).S), T: mt.Elem()}
 		case "has": // has(m, k): key present in map
 			m := e.autoDeref(e.eval(n.Args[0]))
 			k := e.eval(n.Args[1])
